@@ -131,8 +131,19 @@ def replay_state(st: dict, out: dict) -> None:
             final = i == len(st["evhist"]) - 1
             try:
                 if a["a"] == "process":
+                    n_before = len(proc.log)
                     last_out = proc.process(rel)
                     target_out = last_out
+                    if i == 0 and not kf8:
+                        # conformance of the real hook calls to the as-coded model RA_Proc!Process (structural: drift only)
+                        real_hooks = [{"hook": e["hook"], "mas": (e.get("materialize_as") if e["hook"] == "transfer" else e.get("name")) or "none"}
+                                      for e in proc.log[n_before:]]
+                        if real_hooks != list(st.get("hookspec", [])):
+                            out["n_drift"] += 1
+                            if len(out["drift"]) < 3:
+                                out["drift"].append({"what": "hook calls differ from the as-coded Processor model", "case": case,
+                                                     "real": real_hooks, "model": st.get("hookspec")})
+                        cnt["hook_sequences_compared"] = cnt.get("hook_sequences_compared", 0) + 1
                 elif a["a"] == "reprocess":
                     last_out = proc.process(last_out)
                     target_out = last_out
@@ -339,4 +350,11 @@ def run(tier: str, seed: int) -> list[Part]:
         part.counters["tlc_wall_s"] = res.wall_s
         part.wall_s = time.time() - t0
         parts.append(part)
+    # companion: in the class of the open findings F8 / F16 the as-coded Processor model misbehaves too
+    kf = run_tlc("MC_Proc.tla", "ProcKF8.cfg", expect_violation=True, heap="3g")
+    if kf.violated != "KF8Gone":
+        raise MachineryError(f"companion ProcKF8 no longer violates KF8Gone (got {kf.violated})")
+    p = Part(name="prochistory:F8-companion", cfg="ProcKF8.cfg", states=max(kf.distinct, 1), transitions=max(kf.generated, 1))
+    p.notes.append("TLC counterexample on RA_Proc!Process re-derives F8: a SQL materialization whose upstream is rebuilt ends without payload / unevaluable hook source")
+    parts.append(p)
     return parts
